@@ -66,6 +66,17 @@ def _sig_clash(name, key):
     return False
 
 
+def forall(vs, body, patterns=None):
+    """z3.ForAll with explicit triggers when z3 accepts them (terms containing if-then-else or only interpreted
+    symbols are not valid triggers: then z3 infers its own)."""
+    if patterns:
+        try:
+            return z3.ForAll(vs, body, patterns=patterns)
+        except z3.Z3Exception:
+            pass
+    return z3.ForAll(vs, body)
+
+
 class OpaqueStr:
     """Exception messages / f-strings: value dropped by the extraction."""
 
@@ -237,13 +248,25 @@ class SymSet:
             t = z3.Const("t!q", TenS)
             cx.assume(n >= 0)
             # enumeration is onto the set, and injective (idx is its inverse)
-            cx.assume(z3.ForAll([j], z3.Implies(z3.And(0 <= j, j < n), z3.And(self.contains(f(j)), idx(f(j)) == j)),
+            cx.assume(forall([j], z3.Implies(z3.And(0 <= j, j < n), z3.And(self.contains(f(j)), idx(f(j)) == j)),
                                 patterns=[f(j)]), tag="set-iteration-order")
-            cx.assume(z3.ForAll([t], z3.Implies(self.contains(t), z3.And(0 <= idx(t), idx(t) < n, f(idx(t)) == t)),
+            cx.assume(forall([t], z3.Implies(self.contains(t), z3.And(0 <= idx(t), idx(t) < n, f(idx(t)) == t)),
                                 patterns=[idx(t)]), tag="set-iteration-order")
             s = SymSeq(n, lambda i: TRef(f(i)), distinct=True, origin=self)
             s.index_of = lambda tt: idx(tt)
             s.at_key = lambda tt: TRef(tt)
+            src = getattr(self, "from_seq", None)
+            if src is not None:
+                # |set(s)| <= len(s), with equality iff s has no duplicates  (pigeonhole; List.toFinset_card_of_nodup)
+                from . import prims as P
+
+                class _I:
+                    pass
+                fi = _I()
+                fi.cx = cx
+                d = src.distinct if src.distinct is not None else P.seq_distinct_pred(fi, src)
+                cx.assume(z3.And(n <= lift(src.length), (n == lift(src.length)) == lift(d)),
+                          tag="|set(s)| = len(s) iff s is duplicate-free")
             self._seq = s
             self.card = n
         return self._seq
@@ -419,7 +442,9 @@ def finish_comp(interp, out, kind):
 
 
 def finish_nested(interp, out, kind):
-    return finish_comp(interp, out, kind)
+    from . import prims
+
+    return prims.finish_nested_parts(interp, out, kind)
 
 
 def symbolic_comp(interp, e, g, seq, frame, kind):
